@@ -845,7 +845,12 @@ func ruleMirrorGuards(c *Ctx, rule string) {
 					c.ok(rule, key, m.Pos(), "unconditional")
 					return true
 				}
+				// a decrement of the mirrored count is the effect of an EXPUNGE:
+				// conformant responses then have 1 <= number <= count
 				expunge := strings.Contains(strings.ToLower(fd.Name.Name), "expunge")
+				if ids, ok := m.(*ast.IncDecStmt); ok && ids.Tok == token.DEC {
+					expunge = true
+				}
 				evals := 0
 				var bad, undec string
 				for cnt := int64(0); cnt <= 3 && bad == "" && undec == ""; cnt++ {
@@ -853,7 +858,10 @@ func ruleMirrorGuards(c *Ctx, rule string) {
 						if numParam == "" && num > 0 {
 							break
 						}
-						if expunge && !(1 <= num && num <= cnt) {
+						if expunge && numParam != "" && !(1 <= num && num <= cnt) {
+							continue
+						}
+						if expunge && numParam == "" && cnt < 1 {
 							continue
 						}
 						in := &Interp{P: p}
@@ -871,6 +879,53 @@ func ruleMirrorGuards(c *Ctx, rule string) {
 						if numParam != "" {
 							vars[numParam] = mkInt(num)
 						}
+						// a guard hoisted into a named local (`ok := a && b; if ok`)
+						// is evaluated through its single definition
+						var bindErr error
+						for depthL := 0; depthL < 3; depthL++ {
+							progress := false
+							ast.Inspect(guard.Cond, func(x ast.Node) bool {
+								id, ok := x.(*ast.Ident)
+								if !ok {
+									return true
+								}
+								if _, bound := vars[id.Name]; bound {
+									return true
+								}
+								obj, _ := pk.TypesInfo.Uses[id].(*types.Var)
+								if obj == nil || obj.IsField() || obj.Parent() == nil || obj.Parent() == pk.Types.Scope() {
+									return true
+								}
+								var defs []ast.Expr
+								ast.Inspect(fd.Body, func(y ast.Node) bool {
+									as, ok := y.(*ast.AssignStmt)
+									if !ok || len(as.Lhs) != len(as.Rhs) {
+										return true
+									}
+									for k, l := range as.Lhs {
+										if lid, ok := l.(*ast.Ident); ok && (pk.TypesInfo.Defs[lid] == types.Object(obj) || pk.TypesInfo.Uses[lid] == types.Object(obj)) {
+											defs = append(defs, as.Rhs[k])
+										}
+									}
+									return true
+								})
+								if len(defs) != 1 {
+									return true
+								}
+								dv, err := in.EvalExpr(pk, defs[0], vars)
+								if err != nil {
+									bindErr = err
+									return true
+								}
+								vars[id.Name] = dv
+								progress = true
+								return true
+							})
+							if !progress {
+								break
+							}
+						}
+						_ = bindErr
 						v, err := in.EvalExpr(pk, guard.Cond, vars)
 						evals++
 						c.evals++
